@@ -481,6 +481,7 @@ def generate():
         U("registerRemoteCopy rebinds registry")
     mc = P.find_def(cpm, "RemoteCopyClass.__init__")
     frags(mc, "RemoteCopyClass.__init__", ["registry = dict.get('copyableRegistry', None)", "registerRemoteCopy(copytype, self, registry)"])
+    out.append(metaclass_registers(mc))
 
     # ---- registries as they are after import
     src = os.path.join(P.REPO, "src")
@@ -515,6 +516,57 @@ def generate():
         U("CopyableRegistry has a non-str key")
     out.append("Definition copyable_names : list string := [%s]." % "; ".join(coq_string(n) for n in names))
     return {"ReachGen.v": "\n\n".join(out) + "\n"}
+
+
+def metaclass_registers(mc):
+    """RemoteCopyClass.__init__(self, name, bases, dict): under which name (if any) the DEFINITION of a RemoteCopy subclass puts
+    the class into a copyable registry, as a function of what the class body says about `copytype` (absent / None / a string) and
+    `typeToCopy`.  Statement by statement; the accepted layout is
+        type.__init__(self, name, bases, dict)
+        if name == 'RemoteCopy' and _RemoteCopyBase in bases: return          (RemoteCopy itself; not an application class)
+        if 'copytype' not in dict: raise RuntimeError(...)
+        copytype = dict['copytype']
+        if <copytype | copytype is not None>: registry = dict.get('copyableRegistry', None); registerRemoteCopy(copytype, self, registry)
+    anything else (another source for the name, e.g. typeToCopy, another guard) is not understood: fail closed."""
+    if [a.arg for a in mc.args.args] != ["self", "name", "bases", "dict"] or mc.args.vararg or mc.args.kwarg or mc.decorator_list:
+        U("RemoteCopyClass.__init__ signature changed")
+    b = body_nodoc(mc)
+    src = [ast.unparse(s) for s in b]
+    if len(b) != 5:
+        U("RemoteCopyClass.__init__: expected 5 statements, found %d: %s" % (len(b), src))
+    if src[0] != "type.__init__(self, name, bases, dict)":
+        U("RemoteCopyClass.__init__: first statement changed: " + src[0])
+    s1, s2, s3, s4 = b[1:]
+    if not (isinstance(s1, ast.If) and not s1.orelse and ast.unparse(s1.test) == "name == 'RemoteCopy' and _RemoteCopyBase in bases"
+            and [ast.unparse(x) for x in s1.body] == ["return"]):
+        U("RemoteCopyClass.__init__: the guard for RemoteCopy itself changed: " + src[1])
+    if not (isinstance(s2, ast.If) and not s2.orelse and ast.unparse(s2.test) == "'copytype' not in dict" and len(s2.body) == 1
+            and isinstance(s2.body[0], ast.Raise) and isinstance(s2.body[0].exc, ast.Call)
+            and ast.unparse(s2.body[0].exc.func) == "RuntimeError"):
+        U("RemoteCopyClass.__init__: `if 'copytype' not in dict: raise RuntimeError(...)` changed: " + src[2])
+    if src[3] != "copytype = dict['copytype']":
+        U("RemoteCopyClass.__init__: the copytype is no longer dict['copytype']: " + src[3])
+    if not (isinstance(s4, ast.If) and not s4.orelse and [ast.unparse(x) for x in s4.body] ==
+            ["registry = dict.get('copyableRegistry', None)", "registerRemoteCopy(copytype, self, registry)"]):
+        U("RemoteCopyClass.__init__: the registration statement changed: " + src[4])
+    t = ast.unparse(s4.test)
+    if t in ("copytype", "bool(copytype)"):
+        on_str = "if str_truthy s then McRegister s else McSkip"
+    elif t in ("copytype is not None", "copytype != None", "not copytype is None"):
+        on_str = "McRegister s"
+    else:
+        U("RemoteCopyClass.__init__: registration test not understood: " + t)
+    return ("Inductive ctattr := CtAbsent | CtNone | CtStr (s : string).   (* the class body: no `copytype` / copytype = None / copytype = \"s\" *)\n"
+            "Inductive mc_result := McError | McSkip | McRegister (n : string).\n"
+            "Definition str_truthy (s : string) : bool := match s with EmptyString => false | _ => true end.\n"
+            "(* copyable.py RemoteCopyClass.__init__, for an application class (name <> 'RemoteCopy'): the name it is registered under.\n"
+            "   typeToCopy (what a Copyable is SENT as) is not consulted. *)\n"
+            "Definition metaclass_registers (ct : ctattr) (typeToCopy : option string) : mc_result :=\n"
+            "  match ct with\n"
+            "  | CtAbsent => McError      (* copytype not in dict: raise RuntimeError *)\n"
+            "  | CtNone => McSkip         (* the registration test is false for None *)\n"
+            "  | CtStr s => %s\n"
+            "  end." % on_str)
 
 
 def swissnum_source(pm):
